@@ -214,6 +214,20 @@ def check(case, rec):
                     fresh = cube_for(dims_c).calculate([make_func(kind, funcs[i], farg, warg, NN)])[0]
                     back = cube_a.calculate([L[i]])[0]
                     other_rows.append((i, used, fresh, back))
+            if dense and N >= 2 and case["perm"] and case["perm"][0] % 2 == 0:
+                # the same for a count with a SCALAR weight (a constant design weight kept as one shared function object)
+                extra = [numpy.concatenate([a, a[: 1 + N // 2]], axis=0) for a in dense]
+                dims_c = [Q.build_index(a, c) for a, c in zip(extra, commons)] if kind == "ccube" else [a.copy() for a in extra]
+                spec = {"agg": "count", "ignore": False, "rma": "nan", "weighted": True, "tracing": None, "prob": 0.5}
+                shared_count = make_func(kind, spec, None, 0.5, None)
+                first = cube_a.calculate([shared_count])[0]
+                used = cube_for(dims_c).calculate([shared_count])[0]
+                fresh = cube_for(dims_c).calculate([make_func(kind, spec, None, 0.5, None)])[0]
+                back = cube_a.calculate([shared_count])[0]
+                if not same(used, fresh) or not same(back, first):
+                    raise Violation("%s: a scalar-weighted count object used on a cube and then on a cube with a different "
+                                    "number of rows differs from a fresh object there (or on its way back)" % what,
+                                    sig="%s count object remembers its first cube" % kind)
     # results depend on the arguments' CURRENT content: edit the fact array in place and compute again
     edited = None
     if isinstance(farg, numpy.ndarray) and farg.dtype.kind == "f" and farg.size >= 2 and not shared:
